@@ -28,3 +28,10 @@ def check(ctx):
     G.field_closures(ctx, "C01.26")
     G.item_templates(ctx, "C01.29")
     G.field_templates(ctx, "C01.31", strict_alloc=False)
+    # same-path families: the kept definition represents every merged id only if the shape comparator compares every
+    # shape-bearing field of both operands and the merge is guarded by it (shared with C03)
+    from . import c03
+    with ctx.only(lambda k: k.startswith("comparator-coverage/") or k.startswith("comparator-length/") or k.startswith("comparator-arm/") or k.startswith("ground/")):
+        c03.comparator(ctx, "C01.35")
+    with ctx.only(lambda k: k.startswith("keep-first/")):
+        G.keep_first_or_error(ctx, "C01.35")
